@@ -5,8 +5,8 @@
    on every run).  Models: model/Wire.v (types.py primitive by primitive), model/KafkaSpec.v
    (independent hand-written Kafka layout table), model/C11Negotiate.v, model/C11Tables.v. *)
 From Coq Require Import ZArith List Bool String.
-From Verif Require Import Wire WireTables KafkaSpec C11Negotiate C11Tables Schemas
-                          C11_roundtrip C11_negotiate C11_tables.
+From Verif Require Import Wire WireTables KafkaSpec C11Negotiate C11Tables WireRun Schemas
+                          C11_roundtrip C11_negotiate C11_flat C11_tables.
 Import ListNotations.
 Open Scope Z_scope.
 
@@ -53,6 +53,17 @@ Theorem c11_layout_conforms_partial :
   (forall e, In e aux_structs -> aux_layout_ok e = true).
 Proof. exact (conj layout_requests (conj layout_responses layout_aux)). Qed.
 Print Assumptions c11_layout_conforms_partial.
+
+(* [layout_eqb] compares schemas after inlining nested structures ([flat]); that is sound:
+   a schema and its inlined form — hence any two schemas with equal inlined forms — produce
+   the same bytes for every in-range value ([vflat] is the value seen through the inlining).
+   So for every conforming struct the library's bytes are the bytes of the Kafka table
+   entry, for all values, not only the sampled ones. *)
+Theorem c11_same_layout_same_bytes : forall s t v,
+  layout_eqb s t = true -> wt t v = true ->
+  enc (TSchema (flat s)) (VTup (vflat t v)) = enc t v.
+Proof. exact layout_eq_same_bytes. Qed.
+Print Assumptions c11_same_layout_same_bytes.
 
 (* the recorded deviations, on literal copies of the schemas as found *)
 Example c11_layout_deviation_witnesses :
